@@ -99,4 +99,45 @@ pub fn vset_iter<'a>(s: &'a HashSet<usize>) -> (it: std::collections::hash_set::
     it
 }
 }
+pub mod setiter_t {
+use vstd::prelude::*;
+use vstd::std_specs::iter::IteratorSpec;
+use std::collections::HashSet;
+// the same for any element type (cardinality argument over the dereferenced elements)
+pub proof fn lemma_pigeon_t<T>(src: Seq<&T>, s: Set<T>)
+    requires src.len() == s.len(),
+        forall|x: T| s.contains(x) ==> exists|k: int| 0 <= k < src.len() && *#[trigger] src[k] == x,
+        forall|a: int, b: int| 0 <= a < src.len() && 0 <= b < src.len() && a != b ==> *src[a] != *src[b],
+    ensures forall|k: int| 0 <= k < src.len() ==> s.contains(*#[trigger] src[k]),
+{
+    let m = Seq::new(src.len(), |k: int| *src[k]);
+    assert(m.no_duplicates());
+    m.unique_seq_to_set();
+    let ms = m.to_set();
+    assert forall|x: T| s.contains(x) implies ms.contains(x) by {
+        let k = choose|k: int| 0 <= k < src.len() && *#[trigger] src[k] == x;
+        assert(m[k] == x);
+    }
+    assert(s.subset_of(ms));
+    vstd::set_lib::lemma_subset_equality(s, ms);
+    assert forall|k: int| 0 <= k < src.len() implies s.contains(*#[trigger] src[k]) by {
+        assert(m[k] == *src[k]);
+        assert(ms.contains(m[k]));
+    }
+}
+pub fn vset_iter_t<'a, T>(s: &'a HashSet<T>) -> (it: std::collections::hash_set::Iter<'a, T>)
+    requires vstd::std_specs::hash::obeys_key_model::<T>(),
+    ensures
+        it.remaining().len() == s@.len(),
+        forall|a: int, b: int| 0 <= a < it.remaining().len() && 0 <= b < it.remaining().len() && a != b ==> *it.remaining()[a] != *it.remaining()[b],
+        forall|k: int| 0 <= k < it.remaining().len() ==> s@.contains(*#[trigger] it.remaining()[k]),
+        forall|x: T| s@.contains(x) ==> exists|k: int| 0 <= k < it.remaining().len() && *#[trigger] it.remaining()[k] == x,
+        it.obeys_prophetic_iter_laws(), it.decrease() is Some,
+{
+    let it = s.iter();
+    proof { lemma_pigeon_t(it.remaining(), s@); }
+    it
+}
+}
 pub use setiter::vset_iter;
+pub use setiter_t::vset_iter_t;
